@@ -651,6 +651,8 @@ pub struct RefOut {
     pub overview: Res,
     /// results of the preference sets of the set-up (name, result) that were not Ok
     pub setup_errors: Vec<(String, String)>,
+    /// the preferences the reference session had to set (its own value after set_rules_dir differed)
+    pub applied: Vec<(String, String)>,
 }
 
 static REF_MEMO: OnceLock<Mutex<HashMap<u64, RefOut>>> = OnceLock::new();
@@ -667,8 +669,9 @@ pub fn order_prefs_for_reference(prefs: &[(String, String)]) -> Vec<(String, Str
             _ => rest.push((n.clone(), v.clone())),
         }
     }
-    // LanguageAuto can only be set while Language is Auto (the fresh default): set it before Language
-    first.sort_by_key(|(n, _)| if n == "LanguageAuto" { 0 } else { 1 });
+    // LanguageAuto can only be set while Language is Auto. The callers drop LanguageAuto when the session's Language is
+    // not Auto (it is not looked at then); otherwise Language=Auto goes first (the preference files may say otherwise)
+    first.sort_by_key(|(n, _)| if n == "Language" { 0 } else { 1 });
     rest.sort();
     last.sort_by_key(|(n, _)| if n == "DecimalSeparators" { 0 } else { 1 });
     let mut v = first;
@@ -677,8 +680,9 @@ pub fn order_prefs_for_reference(prefs: &[(String, String)]) -> Vec<(String, Str
     v
 }
 
-/// Run a fresh session in a private copy of `fs`: set_rules_dir, the given preferences in the given order,
-/// set_mathml(expr), then speech, braille, overview. Memoised per process by content.
+/// Run a fresh session in a private copy of `fs`: set_rules_dir, then every given preference (the full snapshot of
+/// the session under test, in the given order) whose value differs from what the fresh session holds itself (it reads
+/// the same preference files), set_mathml(expr), then speech, braille, overview. Memoised per process by content.
 pub fn reference_outputs(s: &mut Sess, fs: &SimFs, rules_dir: &str, prefs: &[(String, String)], expr: &str) -> RefOut {
     let mut h = Fnv::new();
     h.u64(fs.content_hash());
@@ -713,7 +717,14 @@ pub fn reference_outputs(s: &mut Sess, fs: &SimFs, rules_dir: &str, prefs: &[(St
             if !r.is_ok() {
                 setup_errors.push(("set_rules_dir".to_string(), r.short()));
             }
+            let mut applied = Vec::new();
             for (n, v) in &prefs {
+                if matches!(dispatch(&Op::GetPref(n.clone())), Res::Ok(cur) if &cur == v) {
+                    continue;
+                }
+                // an unset LanguageAuto means "en" (it cannot be set back to the empty string through the API)
+                let v = if n == "LanguageAuto" && v.is_empty() { &"en".to_string() } else { v };
+                applied.push((n.clone(), v.clone()));
                 let r = dispatch(&Op::SetPref(n.clone(), v.clone()));
                 if !r.is_ok() {
                     setup_errors.push((n.clone(), r.short()));
@@ -724,7 +735,7 @@ pub fn reference_outputs(s: &mut Sess, fs: &SimFs, rules_dir: &str, prefs: &[(St
             let braille = dispatch(&Op::Braille(IdRef::Lit(String::new())));
             let overview = dispatch(&Op::Overview);
             libmathcat::verif_hooks::install(None);
-            RefOut { set_mathml, speech, braille, overview, setup_errors }
+            RefOut { set_mathml, speech, braille, overview, setup_errors, applied }
         })
         .expect("spawn reference thread");
     let out = match handle.join() {
@@ -735,8 +746,62 @@ pub fn reference_outputs(s: &mut Sess, fs: &SimFs, rules_dir: &str, prefs: &[(St
             braille: Res::Err(String::new()),
             overview: Res::Err(String::new()),
             setup_errors: vec![("harness".into(), "reference thread died".into())],
+            applied: vec![],
         },
     };
+    memo.lock().unwrap().insert(key, out.clone());
+    out
+}
+
+/// Preference snapshot of a fresh session in a private copy of `fs`: set_rules_dir, then the given set_preference
+/// calls in the given order (the sets a session accepted, replayed), one speech call so that nothing is pending,
+/// then get_preference for every name. Memoised per process by content.
+pub fn reference_prefs(s: &mut Sess, fs: &SimFs, rules_dir: &str, sets: &[(String, String)], names: &[String], user_config_dir: bool) -> HashMap<String, String> {
+    static MEMO: OnceLock<Mutex<HashMap<u64, HashMap<String, String>>>> = OnceLock::new();
+    let mut h = Fnv::new();
+    h.u64(fs.content_hash());
+    h.str(rules_dir);
+    h.u64(user_config_dir as u64);
+    for (n, v) in sets {
+        h.str(n);
+        h.str(v);
+    }
+    let key = h.0;
+    let memo = MEMO.get_or_init(|| Mutex::new(HashMap::new()));
+    if let Some(r) = memo.lock().unwrap().get(&key) {
+        s.out.stats.ref_memo_hits += 1;
+        return r.clone();
+    }
+    s.out.stats.ref_sessions += 1;
+    let fs = fs.clone();
+    let ctx = s.ctx.clone();
+    let rules_dir = rules_dir.to_string();
+    let sets: Vec<(String, String)> = sets.to_vec();
+    let names: Vec<String> = names.to_vec();
+    let handle = std::thread::Builder::new()
+        .name("reference-prefs".into())
+        .stack_size(32 << 20)
+        .spawn(move || {
+            let cfg = WorldCfg { user_config_dir, ..WorldCfg::default() };
+            let world = World::from_fs(ctx.base.clone(), fs, &cfg, 1, vec![], &None, false);
+            let env: Arc<dyn libmathcat::verif_hooks::VerifEnv> = Arc::new(SimEnv { world: world.clone(), session: 0 });
+            libmathcat::verif_hooks::install(Some(env));
+            let _ = dispatch(&Op::SetRulesDir(rules_dir));
+            for (n, v) in &sets {
+                let _ = dispatch(&Op::SetPref(n.clone(), v.clone()));
+            }
+            let _ = dispatch(&Op::SetMathml(ExprRef::Lit("<math><mi>x</mi></math>".into())));
+            let mut m = HashMap::new();
+            for n in names {
+                if let Res::Ok(v) = dispatch(&Op::GetPref(n.clone())) {
+                    m.insert(n, v);
+                }
+            }
+            libmathcat::verif_hooks::install(None);
+            m
+        })
+        .expect("spawn reference thread");
+    let out = handle.join().unwrap_or_default();
     memo.lock().unwrap().insert(key, out.clone());
     out
 }
